@@ -53,7 +53,17 @@ def handleC04 (inp out : List String) : String :=
   match inp with
   | ["table", ty] =>
     match typeOf ty with
-    | some _ => verdict [",".intercalate (I8.table.map toString)] out none
+    | some _ =>
+      -- numeric TEST (not a theorem) of the table-vs-real clause: |table[t] − 8·ln(1 + e^(−t/8))| ≤ 1/2 for every t in 0..127,
+      -- evaluated in Float on the implementation's table
+      let implTable : List Int := match out with
+        | [o] => ((o.splitOn ",").filterMap String.toInt?)
+        | _ => []
+      let bad := (List.range 128).find? (fun t =>
+        let real := 8.0 * Float.log (1.0 + Float.exp (-(Float.ofNat t) / 8.0))
+        let entry := Float.ofInt (implTable.getD t 0)
+        (entry - real).abs > 0.5000001)
+      verdict [",".intercalate (I8.table.map toString)] out (bad.map (fun t => s!"table-entry-{t}-is-not-round(8*ln(1+exp(-t/8)))"))
     | none => "BADLINE c04 table type"
   | ["i8", ty, m] =>
     match typeOf ty, parsePairs m with
